@@ -339,6 +339,10 @@ func c13Library(c *mc.Ctx) {
 	op := ops[c.Choose(len(ops))]
 	mode := c.Choose(2) // 0 crash after write k, 1 injected error at write k
 	k := c.Choose(40)
+	k2 := 0 // thorough: the re-run dies too, after its k2-th write (0 = the re-run completes)
+	if c.Thorough() && mode == 0 {
+		k2 = c.Choose(41)
+	}
 	c.Shard()
 	// uninterrupted run with a recorder: one run yields every crash state
 	db, rs := op.setup()
@@ -383,6 +387,27 @@ func c13Library(c *mc.Ctx) {
 	if msg := repoConsistent(sdb, srs); msg != "" {
 		c.Fail("inconsistent-after-crash", "%s; %s", msg, desc)
 		return
+	}
+	if k2 > 0 {
+		// second crash: run the operation again on the crash state, recording, and continue from
+		// the state after its k2-th write
+		rec2 := stores.NewRecorder(sdb, srs)
+		err := op.run(sdb, srs)
+		rec2.Stop()
+		if err != nil {
+			c.Fail("rerun-error", "re-running the operation failed: %v; %s", err, desc)
+			return
+		}
+		if k2 > len(rec2.States)-1 {
+			c.Skip()
+		}
+		st2 := rec2.States[k2]
+		desc += fmt.Sprintf("; the re-run dies after its write #%d (%s)", k2, st2.After)
+		sdb, srs = cloneState(st2)
+		if msg := repoConsistent(sdb, srs); msg != "" {
+			c.Fail("inconsistent-after-crash", "%s; %s", msg, desc)
+			return
+		}
 	}
 	// the same operation run again must succeed and end where the uninterrupted run ends
 	sdb.ResetCounters()
@@ -674,7 +699,7 @@ func init() {
 		ID:    "C13",
 		Level: "fault_enumeration",
 		Rule: "library tier: for each of 15 operations (commit of 0/2/300-row tables on a new or existing branch; receive of 1..2-commit transfers with several packfile size limits followed by the ref update; prune of five histories with unreachable commits (two with a chain of three unreachable commits); two 3-way merge commits) one uninterrupted run on recording stores yields the durable state after EVERY store write (each write is atomic), " +
-			"and every such crash state, plus an injected error at every object-store write, is checked: every ref resolves, every stored commit has its parents, every table whose object exists is fully usable (structural oracle), branches point at commits whose table exists; then the same operation is re-run on that state and must succeed and end with exactly the refs (for prune: exactly the objects) of the uninterrupted run. " +
+			"and every such crash state, plus an injected error at every object-store write, is checked: every ref resolves, every stored commit has its parents, every table whose object exists is fully usable (structural oracle), branches point at commits whose table exists; then the same operation is re-run on that state and must succeed and end with exactly the refs (for prune: exactly the objects) of the uninterrupted run (thorough: the re-run is itself interrupted after each of its writes, checked, and re-run). " +
 			"cli tier: the real wrgl binary path (commit, merge, pull, prune) is run as a subprocess that is killed at the k-th write of the Badger / SQLite stores for every k (build-time crash hook), reopened, checked and re-run. evaluations = crash / fault points; distinct by (operation, point)",
 		Assumptions: []string{"a crash is process death between two atomic store writes; torn writes, disk full and fsync reordering inside Badger / SQLite are not modelled", "ingest with more than one worker is covered by C16's schedules, not here"},
 		Harnesses: []*mc.Harness{
